@@ -73,10 +73,16 @@ def run(ctx):
                   "series %s is fed from %s [%s]" % (render(c.args[0]), render(c.args[1]), c.gtext()))
     ctx.check(seen == set(PUSH_TABLE), "append", "all-series", ctx.loc(ap), "all 8 series groups are appended to", "series without a push: %s" % sorted(set(PUSH_TABLE) - seen))
     inner = [h for h in q.body.loop_heads()]
-    ctx.check(len(inner) == 1, "append", "one-loop", ctx.loc(ap), "one level loop, straight-line body")
+    ctx.check(len(inner) == 1 and q.cfg.loop_runs_to_completion(inner[0])[0], "append", "one-loop", ctx.loc(ap), "one level loop that runs over every level (no early exit), straight-line body",
+              "append_record's level loop can be left early")
 
+    step_rules(ctx, m, (("Env", m.env_fn, "order_book"), ("MarketEnv", m.menv_fn, "market")))
+
+
+def step_rules(ctx, m, owners):
+    """recording rules of the step functions and the getters, per environment type"""
     # ---------------------------------------------------------------- step
-    for owner, getter, obj in (("Env", m.env_fn, "order_book"), ("MarketEnv", m.menv_fn, "market")):
+    for owner, getter, obj in owners:
         f = getter("step")
         s = StepShape(m, f, obj)
         sq = s.q
